@@ -1,3 +1,4 @@
+mod crashsim;
 mod eng;
 mod hgen;
 mod model;
